@@ -17,7 +17,12 @@ from common import T_COMMON
 #                             shorter update): a result is a VALUE, no later update may change it in place. The same histories go
 #                             through c13.holds.linearizable with the return-time values. (Added after seeded change C13-m3 —
 #                             File.ApplyMessage recycling its previous buffer — was missed.)
-#   n = number of concurrent histories (+ n/5 FILE histories, 2 lines each); plus n/2 c13.seq lines and n/8 one-client histories through the same oracle.
+#   c13.http.seq / HTTP schedules  the REAL edit server (generator.App.Run edit on 127.0.0.1) driven in-process: sequential endpoint calls vs
+#                             the atomic spec; deterministic schedules with a harness artifact whose Write blocks (a download held after
+#                             Artifact() returned while updates complete; the next download must see the update) and random HTTP
+#                             histories through c13.holds.linearizable. (Added after seeded change C13-m6 — response cache in the HTTP
+#                             layer tagged with a ModelVersion read too late — was missed.)
+#   n = number of concurrent histories (+ n/5 FILE histories, 2 lines each; + 1+n/300 HTTP servers, 10 lines each); plus n/2 c13.seq lines and n/8 one-client histories through the same oracle.
 # Extra: the same stream built with `go build -race`; a DATA RACE report (exit code 66) fails the extra.
 #   quick: one run in which the stream itself varies GOMAXPROCS 1/2/4/16 per history;
 #   thorough: additionally GOMAXPROCS pinned to 1, 2 and 16 from the environment.
@@ -85,12 +90,16 @@ CFG = dict(
              "process() of the producer one level deep) — rests on the regenerated lock facts (syntactic) and the correspondence, not on a semantics of Go",
              "`Linearization` itself does not demand a well-formed history; executions of the model produce well-formed ones, and for recorded "
              "histories checkWitness (wfHist) enforces it",
-             "HTTP plumbing (app_server*.go, saver.Save() after an update, websocket hub) is not modelled; the three entry points are what the handlers call",
+             "the HTTP layer is not MODELLED but EXERCISED: the real edit server (generator.App.Run edit) is driven in-process — parameter-value and "
+             "producer-value endpoints sequentially against the atomic spec (c13.http.seq) and concurrently (deterministic schedules with a "
+             "harness artifact whose Write blocks mid-download, random histories) through the verified linearizability check; other endpoints "
+             "(/node, /graph, /zip, websocket messages, autosave) are not driven",
              "graph edits (ConnectNodes, CreateNode, DeleteNode, SetNodeAsProducer, ApplyAppSchema) concurrent with the three calls are outside the "
              "property and the model: they mutate i.producers / i.nodeIDs without producerLock; the whitelisted pre-lock producers lookup is "
              "sound only because none of the three entry points writes that map",
-             "Instance.ModelVersion() reads movelVersion without the lock (app_server.go:228, room/hub.go:176) while UpdateParameter "
-             "increments it under the lock: a race outside the three entry points (source: 'TODO: Make thread safe')",
+             "GENUINE RACE reported by the race extra on the real server: room.(*Hub).Run() hub.go:176 / StartedEndpoint app_server.go:228 read "
+             "Instance.movelVersion without the lock while UpdateParameter increments it under the lock (source: 'TODO: Make thread safe'); "
+             "minimal fix atomic.Uint32 — see notes/C13.md (reported to the coordinator)",
              "explicit (non-deferred) Unlock: a panic between Lock and Unlock would leave the mutex held — a deadlock the harness watchdog would show, "
              "not the lock facts; today all three functions defer the Unlock",
              "malformed JSON in UpdateParameter, unknown node ids / producer names (panic) are not generated; liveness is not claimed",
@@ -116,14 +125,17 @@ CFG = dict(
              "on a real graph.Instance match the model exactly; histories recorded from 1–16 goroutines (GOMAXPROCS 1/2/4/16, unique update "
              "values, yielding processors) are linearized by an untrusted search whose witness the verified checker validates; the same stream "
              "under the race detector; results held by clients (ParameterData bytes, artifact bytes of parameter.File + basics.BinaryNode) are "
-             "re-digested after later completed updates (results_immutable).",
+             "re-digested after later completed updates (results_immutable); the REAL edit server's parameter/producer endpoints are driven "
+             "sequentially (c13.http.seq) and with deterministic blocked-Write schedules and random concurrent HTTP histories through the same "
+             "verified linearizability check.",
         note="Trusted: Lean kernel + 3 axioms; the syntactic lock-fact extractor (self-tested on 18 seeded variants of instance.go); harness; "
              "Go's sync.Mutex; the race detector. Runtime residue: data-race freedom is the race detector's verdict on the runs made, not a "
              "theorem. That the Go functions are clients of the fine-grained model (all shared-state accesses between Lock and Unlock; their "
              "steps compose to the sequential operation) rests on the lock facts plus correspondence, not on a Go semantics; the split of "
              "process() into micro-steps is one level deep. artifact_snapshot inherits C11's guard (acyclic graph) and holds for every "
-             "processor; the micro-step programs (artifactTrace) are those of all-reading processors. HTTP plumbing, graph edits concurrent with the three calls, ModelVersion() (unlocked read, outside the three entry "
-             "points) are not modelled. Value semantics of returned results (no aliasing with buffers a later update writes) is a tested "
+             "processor; the micro-step programs (artifactTrace) are those of all-reading processors. The HTTP layer is exercised (parameter/producer endpoints), not modelled; graph edits concurrent with the "
+             "three calls are not modelled. GENUINE RACE found on the real server: the hub goroutine / StartedEndpoint read "
+             "Instance.movelVersion unlocked while UpdateParameter writes it (hub.go:176, app_server.go:228; fix: atomic). Value semantics of returned results (no aliasing with buffers a later update writes) is a tested "
              "predicate (results_immutable), not a theorem.",
         technique="Lean 4 proof (linearizability of the atomic lock protocol over C11's model, refinement from the fine-grained locked system, "
                   "verified witness checker) + regenerated lock facts + recorded-history validation + race detector"),
